@@ -108,6 +108,42 @@ def coq_roots(lines):
     return (t, "|".join(x[2] for x in seq))
 
 
+def evict_probe(seed=1, with_model=False):
+    """Runs ONLY the evict scenario of the submit harness (harness/submit -only=evict: a log with
+    PoolSize 1 and 2, rounds by hand; an evicted / rate-limited HTTP submitter must get 503 +
+    Retry-After, no SCT, and its entry must not be sequenced). The harness is built from
+    checklib's REPO (VERIF_REPO is honoured). A few seconds including the (cached) go build.
+    Returns (ok, failing_monitor_lines, stats, log): ok = the harness ran and every mon_ line
+    holds (and, with_model=True, the already built model driver prints the same submit lines:
+    Submit/Model.v respond maps WEvicted/WPoolFull to 503)."""
+    hexe, hlog = L.build_harness("submit")
+    if hexe is None:
+        return False, [], {"error": "harness build failed"}, hlog[-6000:]
+    rc, out, dt = L.run([hexe, "-seed=%d" % seed, "-only=evict"], timeout=300)
+    lines = [l for l in out.split("\n") if "|=>|" in l]
+    mons = [l for l in lines if l.startswith("mon_")]
+    bad = [l for l in mons if D.split_line(l)[2] != "holds"]
+    stats = {"wall_s": round(dt, 2), "rc": rc, "monitors": len(mons), "requests": len([l for l in lines if l.startswith("submit")]), "by_monitor": {}, "codes": {}}
+    for l in mons:
+        op = l.split("|")[0]
+        stats["by_monitor"][op] = stats["by_monitor"].get(op, 0) + 1
+    for l in lines:
+        if l.startswith("stat|code:"):
+            stats["codes"][l.split("|")[1][5:]] = int(l.split("|")[-1])
+    ok = rc == 0 and not bad and stats["by_monitor"].get("mon_evicted", 0) > 0 and stats["by_monitor"].get("mon_ratelimited", 0) > 0
+    log = "" if rc == 0 else out[-4000:]
+    if with_model:
+        mexe = os.path.join(L.BUILD, "bin", "model_submit")
+        work = [l for l in lines if not l.startswith("mon_")]
+        ml, err = D.run_model(mexe, "\n".join(work) + "\n") if os.path.exists(mexe) else (None, "model driver not built")
+        diffs = L.diff_lines(work, [l for l in ml if l]) if ml is not None else []
+        stats["model_impl_differences"] = len(diffs) if ml is not None else err
+        if diffs:
+            ok = False
+            log += "model/impl difference: impl %s | model %s" % (diffs[0][1][-80:], diffs[0][2][-80:])
+    return ok, bad, stats, log
+
+
 def main(tier, seed, replay):
     res = L.Result(PROP, tier, seed)
     ok, cov = L.proof_stage(res, PROP, PROP_V, thorough=(tier == "thorough"))
@@ -172,7 +208,7 @@ def main(tier, seed, replay):
     pick = lambda pred: [l[:300] for l in subs if pred(l)][:1]
     cov.update({
         "evaluations": len(steps) + st.get("monitors", 0), "distinct_nontrivial": nontrivial,
-        "rule": "one evaluation = one harness line (stat lines excluded): a real DER chain (crypto/x509-generated CA hierarchy: accepted/unaccepted/temporarily accepted roots, intermediates, precertificate signing certificates, self-signed special roots) posted to the real add-chain/add-pre-chain handler of a real ctlog.Log with the real sequencer, or a root reload/get-roots step, or the issuer loop of one request of the issuer scenario (fresh CA hierarchies; the backend fails the first Upload of every issuer/ object, or honours a request context cancelled before the request / at the k-th Fetch / at the k-th Upload of an issuer; the same chain is resubmitted until it is accepted; and the pending scenario: the same leaf through different valid chains while the first submission is still pending or in sequencing; and the re-keyed scenario: two precertificate chains with a byte-identical TBSCertificate and different issuer keys), or computeCacheHash on one entry, or a monitor; non-trivial = the validation oracle returned a chain (sunlight's own decision logic was reached) or a root-state step; distinct by harness line",
+        "rule": "one evaluation = one harness line (stat lines excluded): a real DER chain (crypto/x509-generated CA hierarchy: accepted/unaccepted/temporarily accepted roots, intermediates, precertificate signing certificates, self-signed special roots) posted to the real add-chain/add-pre-chain handler of a real ctlog.Log with the real sequencer, or a root reload/get-roots step, or the issuer loop of one request of the issuer scenario (fresh CA hierarchies; the backend fails the first Upload of every issuer/ object, or honours a request context cancelled before the request / at the k-th Fetch / at the k-th Upload of an issuer; the same chain is resubmitted until it is accepted; and the pending scenario: the same leaf through different valid chains while the first submission is still pending or in sequencing; and the re-keyed scenario: two precertificate chains with a byte-identical TBSCertificate and different issuer keys; and the evict scenario: bounded pools, evicted and rate-limited submitters), or computeCacheHash on one entry, or a monitor; non-trivial = the validation oracle returned a chain (sunlight's own decision logic was reached) or a root-state step; distinct by harness line",
         "traces_validated_against_impl": max(0, len(steps) - st.get("diffs", 0)), "distinct_cases": len(set(steps)),
         "impl_property_monitors": st.get("monitors", 0), "monitor_failures": st.get("monitor_failures", 0),
         "model_impl_differences": st.get("diffs", 0), "vm_compute_crosschecked": ncross,
@@ -191,6 +227,8 @@ def main(tier, seed, replay):
         "rekeyed_scenario": {"pairs": sum(v for k, v in stats.items() if k.startswith("rekeyed:")),
                              "by_kind_and_timing": {k.split(":", 1)[1]: v for k, v in stats.items() if k.startswith("rekeyed:")},
                              "what": "two accepted CAs with the same subject DN and subject key identifier but different keys (re-keyed root, re-keyed intermediate, one precertificate whose signing certificate's key is certified under both re-keyed intermediates) sign the same precertificate template: byte-identical defanged TBSCertificate, different issuer_key_hash; both chains submitted in the same round / the second while the first is in sequencing / the second after the first was sequenced; judged by mon_leaf, mon_sct, mon_twin on each and mon_rekeyed (two leaves, two indexes); cachekey lines replay computeCacheHash against Submit/IssuerModel.v dedup_key"},
+        "evict_scenario": {"runs": stats.get("evict:runs", 0), "mon_evicted": st.get("ops", {}).get("mon_evicted", 0), "mon_ratelimited": st.get("ops", {}).get("mon_ratelimited", 0),
+                           "what": "PoolSize 1, 2 and 2 with two low-priority entries pending; rounds by hand; low-priority request in flight, high-priority arrival before the round (evicted: 503 + Retry-After, no SCT, entry not in the tree after the round, also for the resubmission while pending), low and high submissions to a pool full of high-priority entries (503 + Retry-After at once), exactly one victim, accepted when retried after the round; also run alone by evict_probe()"},
         "samples": pick(lambda l: "|=>|200:" in l and "|chain|" in l) + pick(lambda l: "|=>|200:" in l and "|prechain|" in l)
                    + pick(lambda l: "|=>|400:" in l and "|none|" not in l) + [l[:300] for l in work if l.startswith("setroots")][:1]
                    + [l[:120] + " ... " + l[l.index("|=>|") - 60:] for l in work if l.startswith("upissuers|") and "|=>|err" in l][:1]
